@@ -52,6 +52,9 @@ type Leaf interface {
 	// match returns true if the leaf matches the segment, values of bind parameters
 	// are stored in the `Params`.
 	match(segment string, params Params, header http.Header) bool
+	// setImplicitLeaf sets the leaf that is added implicitly for the same route
+	// without its optional segment.
+	setImplicitLeaf(leaf Leaf)
 }
 
 // baseLeaf contains common fields for any leaf.
@@ -61,6 +64,7 @@ type baseLeaf struct {
 	segment       *Segment       // The segment that the leaf is derived from.
 	handler       Handler        // The handler bound to the leaf.
 	headerMatcher *HeaderMatcher // The matcher for header values.
+	implicitLeaf  Leaf           // The leaf of the same route without its optional segment.
 }
 
 func (l *baseLeaf) getParent() Tree {
@@ -73,6 +77,16 @@ func (l *baseLeaf) getSegment() *Segment {
 
 func (l *baseLeaf) SetHeaderMatcher(m *HeaderMatcher) {
 	l.headerMatcher = m
+
+	// The route is subject to the same matcher when it is requested without its
+	// optional segment.
+	if l.implicitLeaf != nil {
+		l.implicitLeaf.SetHeaderMatcher(m)
+	}
+}
+
+func (l *baseLeaf) setImplicitLeaf(leaf Leaf) {
+	l.implicitLeaf = leaf
 }
 
 func (l *baseLeaf) matchHeader(header http.Header) bool {
